@@ -282,6 +282,9 @@ class Layout:
         body = self.r.choice(HOSTILE_COMMENT_BODIES).replace('\n', ' ')
         if body.endswith('\\'):
             body += ' .'
+        if self.r.random() < 0.12:
+            # a line comment continued with backslash-newline: the next physical line still is comment text
+            body += ' \\\n class NotADeclaration { void f(); }; ' + self.r.choice(['', 'more text', '// again'])
         return '//' + body + '\n'
 
     def gap(self, a, b):
